@@ -262,6 +262,41 @@ def ob_delete_point(k, timeout):
     return Ob("pdelete-k%d" % k, F(*names), body, pre, fmode="real", timeout=timeout, funcs=[FUNCS[3], FUNCS[5]], bounds="k=%d points" % k)
 
 
+def ob_insert_twice(mode, form, timeout):
+    """a 2-step history: insert an entry whose label carries surrounding whitespace (given as an
+    Interval object or as a tuple), then insert a second one anywhere - the second step sees a
+    tier that is exactly the list model of the first"""
+    names = ["s0", "e0", "ns", "ne", "hi"]
+
+    def pre(s0, e0, ns, ne, hi):
+        return ivs_wf_pre(0.0, hi, s0, e0) & (hi <= 1024.0) & (0.0 <= ns) & (ns < ne) & (ne <= 1024.0) & sep(ns, ne, 0.0, hi, s0, e0)
+
+    def body(s0, e0, ns, ne, hi):
+        tier = IntervalTier("t", [], 0.0, hi)
+        first = Interval(s0, e0, " mid \t") if form == "interval" else (s0, e0, " mid \t")
+        tier.insertEntry(first, "error", "silence")
+        if tuples(tier.entries) != [(s0, e0, "mid")]:
+            return "first insert: label not stored stripped"
+        exp = R.insert_interval([(s0, e0, "mid")], 0.0, hi, (ns, ne, "n"), mode)
+        before = snap_tier(tier)
+        try:
+            tier.insertEntry(Interval(ns, ne, "n"), mode, "silence")
+        except errors.CollisionError:
+            if snap_tier(tier) != before:
+                return "tier changed although insertEntry raised"
+            return True if exp == ("collision",) else "unexpected CollisionError"
+        if exp == ("collision",):
+            return "collision not rejected in error mode"
+        ee, nlo, nhi = exp
+        if tuples(tier.entries) != ee:
+            return "entries differ after the second insert"
+        if (tier.minTimestamp, tier.maxTimestamp) != (nlo, nhi):
+            return "span differs"
+        return True
+
+    return Ob("ihistory-insert-insert-%s-%s" % (mode, form), F(*names), body, pre, fmode="real", timeout=timeout, setup=_setup, funcs=FUNCS[:2], bounds="empty tier; first entry (label with surrounding whitespace, as %s), second entry anywhere; 2-step history" % form)
+
+
 def ob_insert_then_delete(k, timeout):
     names = ["ns", "ne", "hi"] + _ts(k)
 
@@ -297,6 +332,8 @@ def obligations(tier):
         obs.append(ob_delete_interval(2, 120))
         obs.append(ob_delete_point(2, 120))
         obs.append(ob_insert_then_delete(1, 120))
+        obs.append(ob_insert_twice("replace", "interval", 120))
+        obs.append(ob_insert_twice("merge", "tuple", 120))
     else:
         for mode in MODES:
             for rm in ("silence", "warning"):
@@ -310,4 +347,7 @@ def obligations(tier):
             obs.append(ob_delete_interval(k, 900))
             obs.append(ob_delete_point(k, 900))
             obs.append(ob_insert_then_delete(k, 900))
+        for m in MODES:
+            for f in ("interval", "tuple"):
+                obs.append(ob_insert_twice(m, f, 600))
     return obs
